@@ -16,6 +16,8 @@ PROFILES = ["debug"]
 CASE_TYPE = "case"
 EXPLAIN = "explain"
 SHARD = 2000
+SEARCH_MAX = 500
+ESCALATE_MAX = 40
 AXIOM_ALLOW = []
 ROOT = os.path.dirname(os.path.dirname(os.path.abspath(__file__)))
 THEORIES = os.path.join(ROOT, "coq", "theories")
@@ -103,12 +105,75 @@ def matching(toks, i):
     raise Unclassifiable("unbalanced delimiters")
 
 
-def find_macros(toks):
-    """name -> list of (matcher tokens, transcriber tokens), delimiters stripped"""
+def matching_back(toks, j):
+    """index of the delimiter opening toks[j] (searching backwards), or -1"""
+    depth = 0
+    for k in range(j, -1, -1):
+        if toks[k] in OPEN.values():
+            depth += 1
+        elif toks[k] in OPEN:
+            depth -= 1
+            if depth == 0:
+                return k
+    return -1
+
+
+def attrs_before(toks, i):
+    """first words of the outer attributes `#[word ...]` written directly before the item starting at toks[i]
+    (visibility qualifiers are skipped)"""
+    out, j = [], i - 1
+    while j >= 0:
+        if toks[j] == "pub":
+            j -= 1
+            continue
+        if toks[j] == ")" and matching_back(toks, j) >= 1 and toks[matching_back(toks, j) - 1] == "pub":
+            j = matching_back(toks, j) - 2
+            continue
+        if toks[j] != "]":
+            break
+        o = matching_back(toks, j)
+        if o < 1 or toks[o - 1] != "#":
+            break
+        out.append(toks[o + 1] if o + 1 < j else "")
+        j = o - 2
+    return out
+
+
+CFG_WORDS = ("cfg", "cfg_attr")
+
+
+def conditional_compilation(toks):
+    """conditional compilation that decides WHICH macro definition a user gets is outside the model (the translator reads
+    one definition per name): a cfg / cfg_attr attribute on a macro_rules item or on a module containing it, or on the
+    whole crate (`#![cfg(..)]`).  Returns {macro name: description} ("" = the whole crate).  Other cfg attributes in the
+    file are none of our business."""
+    gated = {}
+    for i, t in enumerate(toks):
+        if t == "macro_rules" and i + 2 < len(toks) and toks[i + 1] == "!":
+            bad = [a for a in attrs_before(toks, i) if a in CFG_WORDS]
+            if bad:
+                gated.setdefault(toks[i + 2], "macro_rules! %s carries a #[%s(..)] attribute" % (toks[i + 2], bad[0]))
+        if t == "mod" and i + 2 < len(toks) and toks[i + 2] == "{":
+            end = matching(toks, i + 2)
+            bad = [a for a in attrs_before(toks, i) if a in CFG_WORDS]
+            if bad:
+                for k in range(i + 3, end):
+                    if toks[k] == "macro_rules" and toks[k + 1] == "!":
+                        gated.setdefault(toks[k + 2], "module %s, which defines macro_rules! %s, carries a #[%s(..)] attribute" % (
+                            toks[i + 1], toks[k + 2], bad[0]))
+        if t == "#" and toks[i + 1:i + 4] == ["!", "[", "cfg"]:
+            gated.setdefault("", "the crate carries a #![cfg(..)] attribute")
+    return gated
+
+
+def find_macros(toks, dups=None):
+    """name -> list of (matcher tokens, transcriber tokens), delimiters stripped; names defined more than once -> dups"""
     res, i = {}, 0
     while i < len(toks):
         if toks[i] == "macro_rules" and toks[i + 1] == "!" and toks[i + 3] == "{":
             name, end = toks[i + 2], matching(toks, i + 3)
+            if name in res and dups is not None:
+                dups.add(name)
             arms, j = [], i + 4
             while j < end:
                 if toks[j] == ";":
@@ -127,6 +192,19 @@ def find_macros(toks):
         else:
             i += 1
     return res
+
+
+def one_definition(toks, dups, involved):
+    """the macros the model describes must have exactly one, unconditional definition"""
+    gated = conditional_compilation(toks)
+    if "" in gated:
+        raise Unclassifiable("conditional compilation selects the macro definitions: " + gated[""])
+    for n in involved:
+        if n in gated:
+            raise Unclassifiable("conditional compilation selects the macro definitions: " + gated[n])
+        if n in dups:
+            raise Unclassifiable("macro %s is defined more than once (the model describes one definition per name, the "
+                                 "others may be what some build configuration expands)" % n)
 
 
 class P:
@@ -341,9 +419,11 @@ def classify_final(name, arms):
 
 def translate(src):
     """macro_rules! source text -> description dict; raises Unclassifiable"""
-    macros = find_macros(tokenize(src))
+    toks, dups = tokenize(src), set()
+    macros = find_macros(toks, dups)
     if "rec_lambda" not in macros:
         raise Unclassifiable("macro rec_lambda not found")
+    one_definition(toks, dups, ["rec_lambda"])
     # entry arms name the two munchers
     entry, names = [], {}
     for k, (matcher, trans) in enumerate(macros["rec_lambda"]):
@@ -375,6 +455,7 @@ def translate(src):
     if len(finals) != 1 or list(finals)[0] not in macros:
         raise Unclassifiable("expected exactly one final macro called by the munchers, found %s" % sorted(finals))
     names["final"] = list(finals)[0]
+    one_definition(toks, dups, ["rec_lambda", names["M0"], names["M1"], names["final"]])
     desc = {"entry": [(ep, "M0" if c == names["M0"] else "M1") for ep, c in entry]}
     for r in ("M0", "M1"):
         desc[r] = [classify_rule(names[r], k, m, t, names) for k, (m, t) in enumerate(macros[names[r]])]
@@ -411,8 +492,26 @@ def snapshot_value():
 
 
 # ======================================================================================= cases
+# A case = invocation shape (caps/tys/nargs/ret/syn) + optional program families `fams` (see harness/crates/c20/src/fam.rs):
+#   T call layouts, L call-site contexts, E early exits, A argument expressions using captures, Y other types
+#   (atys/ctys/rty), D<n> depth, R rounds + repeated calls + caught panic, G usage contexts / closure kind, N name
+#   collisions with values, F name collision with a free fn, K the crate's README + tests, X other editions.  Every family is one more pair of programs
+#   (macro version / hand-written) on the same shape; what they print is appended to the two number lists of the case.
+PROGRAM_FAMS = "TLEAYDRGNF"
+ARG_TYS = "abcdefghijklmn"        # u64 usize i64 (u64,u64) [u64;2] Option<u64> &[u64] String &str &mut Vec<u64> bool Vec<u64> Box<u64> &u64
+ARG_FIRST = "abcdefghilmn"        # types the first (depth) argument may have
+CAP_TYS = "VUWHACTPBFRO"          # Vec<u64> u64 Vec<Vec<usize>> HashMap<(usize,usize),u64> [u64;3] Cell<u64> String (u64,String)
+#                                   Box<dyn FnMut(u64)->u64> fn(u64)->u64 &'static str Option<Box<u64>>
+RET_TYS = "unbtvorxasz"           # u64 () bool (u64,bool) Vec<u64> Option<u64> Result<u64,String> Box<u64> [u64;2] String usize
+DEPTH = {"quick": 10000, "thorough": 100000}
+
+
 def harness_line(c):
-    return "%s %s %d %d %d" % (c["caps"] or "-", c["tys"] or "-", c["nargs"], c["ret"], c["syn"])
+    base = "%s %s %d %d %d" % (c["caps"] or "-", c["tys"] or "-", c["nargs"], c["ret"], c["syn"])
+    fams = c.get("fams") or []
+    if not fams:
+        return base
+    return "%s %s %s %s %s" % (base, ",".join(fams), c.get("atys") or "-", c.get("ctys") or "-", c.get("rty") or "-")
 
 
 def all_patterns(maxlen=4):
@@ -423,65 +522,131 @@ def all_patterns(maxlen=4):
     return out
 
 
-def mk(rng, caps, nargs, ret, syn):
+def mk(rng, caps, nargs, ret, syn, fams=()):
     tys = "".join("U" if rng.chance(1, 3) else "V" for _ in caps)
-    return {"caps": caps, "tys": tys, "nargs": nargs, "ret": ret, "syn": syn}
+    c = {"caps": caps, "tys": tys, "nargs": nargs, "ret": ret, "syn": syn}
+    return with_fams(rng, c, fams)
+
+
+def with_fams(rng, c, fams):
+    fams = [f for f in fams]
+    if not fams:
+        return c
+    c = dict(c, fams=fams)
+    if "Y" in fams:
+        c["atys"] = rng.choice(ARG_FIRST) + "".join(rng.choice(ARG_TYS) for _ in range(c["nargs"] - 1))
+        c["ctys"] = "".join(rng.choice(CAP_TYS) for _ in c["caps"])
+        c["rty"] = rng.choice(RET_TYS) if c["ret"] else "-"
+    return c
+
+
+def fam_cycle(tier):
+    return ["T", "L", "E", "A", "Y", "D%d" % DEPTH[tier], "R", "G", "N", "F"]
+
+
+def all_fams(tier, extra=""):
+    return fam_cycle(tier) + list(extra)
+
+
+# shapes that get every family in the quick tier (README shape first: it also carries K)
+FULL_QUICK = [("SM", 1, 1, 0, "KX"), ("", 1, 1, 1, "X"), ("", 2, 0, 0, ""), ("S", 1, 1, 1, ""), ("M", 2, 0, 1, "X"), ("MS", 2, 1, 1, ""),
+              ("SMS", 3, 0, 1, ""), ("MSM", 3, 1, 0, "X"), ("SMSM", 4, 1, 1, ""), ("MMSS", 2, 0, 0, ""), ("", 3, 1, 1, ""), ("SS", 1, 0, 1, "")]
+# count boundaries (the munchers use one macro recursion level per head; "any number" of captures)
+BIG_QUICK = [("SM" * 4, 6, 1, 1), ("M" * 16, 1, 0, 0)]
+BIG_THOROUGH = [(p, n, ret, syn) for p in ("SM" * 4, "SM" * 8, "SM" * 16, "SM" * 30, "S" * 8, "S" * 16, "S" * 32, "S" * 60,
+                                           "M" * 8, "M" * 16, "M" * 32, "M" * 60, "MMS" * 11, "S" + "M" * 40)
+                for (n, ret, syn) in ((1, 1, 0), (6, 0, 1), (8, 1, 1))]
 
 
 def generate(rng, tier):
     cases = []
     pats = all_patterns(4)
+    cyc = fam_cycle(tier)
     if tier == "thorough":
+        k = 0
         for p in pats:
             for n in (1, 2, 3, 4):
                 for ret in (0, 1):
                     for syn in (0, 1):
-                        cases.append(mk(rng, p, n, ret, syn))
+                        # every family on every shape of the stated quantifier; README + tests once; editions on a third
+                        extra = ("K" if (p, n, ret, syn) == ("SM", 1, 1, 0) else "") + ("X" if k % 3 == 0 else "")
+                        cases.append(mk(rng, p, n, ret, syn, all_fams(tier, extra)))
+                        k += 1
         for p in all_patterns(5)[len(pats):]:     # beyond the stated quantifier: 5 captures, 2 and 5 arguments
             for n in (2, 5):
                 for ret in (0, 1):
                     for syn in (0, 1):
-                        cases.append(mk(rng, p, n, ret, syn))
+                        cases.append(mk(rng, p, n, ret, syn, [cyc[k % len(cyc)], cyc[(k + 4) % len(cyc)]]))
+                        k += 1
+        for (p, n, ret, syn) in BIG_THOROUGH:
+            c = mk(rng, p, n, ret, syn)
+            cases.append(dict(c, tys="".join("U" if i % 3 == 2 else "V" for i in range(len(p)))))
         return cases
+    k = 0
     for n in (1, 2, 3, 4):                       # no captures, everything
         for ret in (0, 1):
             for syn in (0, 1):
-                cases.append(mk(rng, "", n, ret, syn))
+                cases.append(mk(rng, "", n, ret, syn, [cyc[k % len(cyc)]]))
+                k += 1
     combos = [(n, ret, syn) for n in (1, 2, 3, 4) for ret in (0, 1) for syn in (0, 1)]
     rng.shuffle(combos)
     for i, p in enumerate(pats[1:]):             # every non-empty pattern, cycling through the combinations
         n, ret, syn = combos[i % len(combos)]
-        cases.append(mk(rng, p, n, ret, syn))
+        cases.append(mk(rng, p, n, ret, syn, [cyc[k % len(cyc)]]))
+        k += 1
     for p in ("SMSM", "MSMS", "SMS", "MSM"):     # alternating patterns, 3 and 4 arguments, everything
         for n in (3, 4):
             for ret in (0, 1):
                 for syn in (0, 1):
-                    cases.append(mk(rng, p, n, ret, syn))
+                    cases.append(mk(rng, p, n, ret, syn, [cyc[k % len(cyc)]]))
+                    k += 1
+    for (p, n, ret, syn, extra) in FULL_QUICK:   # every family on a spread of shapes
+        cases.append(mk(rng, p, n, ret, syn, all_fams(tier, extra)))
+    for (p, n, ret, syn) in BIG_QUICK:
+        cases.append(mk(rng, p, n, ret, syn, ["T"]))
     return cases
 
 
 def shrink(c):
     out = []
+    fams = c.get("fams") or []
+    for i in range(len(fams)):
+        out.append(dict(c, fams=fams[:i] + fams[i + 1:]))
+    for i, f in enumerate(fams):
+        if f.startswith("D") and int(f[1:]) > 100:
+            out.append(dict(c, fams=fams[:i] + ["D%d" % (int(f[1:]) // 10)] + fams[i + 1:]))
+    cty = c.get("ctys") or ""
+    aty = c.get("atys") or ""
     for i in range(len(c["caps"])):
-        out.append(dict(c, caps=c["caps"][:i] + c["caps"][i + 1:], tys=c["tys"][:i] + c["tys"][i + 1:]))
+        out.append(dict(c, caps=c["caps"][:i] + c["caps"][i + 1:], tys=c["tys"][:i] + c["tys"][i + 1:], ctys=cty[:i] + cty[i + 1:]))
     if c["nargs"] > 1:
-        out.append(dict(c, nargs=c["nargs"] - 1))
+        out.append(dict(c, nargs=c["nargs"] - 1, atys=aty[:c["nargs"] - 1]))
     if c["ret"]:
-        out.append(dict(c, ret=0))
+        out.append(dict(c, ret=0, rty="-"))
     if c["syn"]:
         out.append(dict(c, syn=0))
     if "U" in c["tys"]:
         out.append(dict(c, tys="V" * len(c["tys"])))
+    if "Y" in fams:
+        for i, t in enumerate(aty):
+            if t != "a":
+                out.append(dict(c, atys=aty[:i] + "a" + aty[i + 1:]))
+        for i, t in enumerate(cty):
+            if t not in "VU":
+                out.append(dict(c, ctys=cty[:i] + "V" + cty[i + 1:]))
+        if c["ret"] and c.get("rty", "u") != "u":
+            out.append(dict(c, rty="u"))
     return out
 
 
 def nontrivial(c, obs):
-    return bool(c["ret"]) or ("M" in c["caps"])
+    return bool(c["ret"]) or ("M" in c["caps"]) or bool(c.get("fams"))
 
 
 def classify(c, obs):
-    return "%dcap/%darg/%s/%s/%s" % (len(c["caps"]), c["nargs"], "ret" if c["ret"] else "noret",
-                                     "trailing" if c["syn"] else "plain", obs.split(" ## ")[0])
+    return "%dcap/%darg/%s/%s/%s/%s" % (len(c["caps"]), c["nargs"], "ret" if c["ret"] else "noret",
+                                        "trailing" if c["syn"] else "plain",
+                                        "".join(f[0] for f in (c.get("fams") or [])) or "base", obs.split(" ## ")[0])
 
 
 def known_finding(c, obs, profile):
